@@ -11,6 +11,7 @@ import AidlVerif.Props.C12
 import AidlVerif.Props.C20
 import AidlVerif.Props.C19Gen
 import AidlVerif.Driver.SerdeEnc
+import AidlVerif.Driver.Parse
 
 /-
   Model driver: one JSON case per input line, one JSON verdict per output line.
@@ -438,6 +439,54 @@ def opSerde (j : Json) : R Verdict := do
   v := v.addAssume "C19" wf
   return { v with nontrivial := trees.size > 0, dist }
 
+structure ParseCtx where
+  files : List (String × String)                 -- id, text
+  lcs : List (String × List (Nat × Nat × Nat))
+  stage1 : List FileResult                       -- implementation's syntax stage
+  out : List FileResult                          -- implementation's validate()
+  model : List (String × Except String FileResult)
+  case : Json
+
+/-- parse-level op: the model parses the text itself -/
+def opParse (prop : String) (j : Json) (extra : ParseCtx → Verdict → R Verdict) : R Verdict := do
+  let impl ← fld j "impl"
+  let outcome ← str (← fld impl "outcome")
+  let files ← list (fun f => do pure ((← str (← fld f "id")), (← str (← fld f "text")))) (← fld j "files")
+  let lcs ← list (fun e => do
+    let a ← arr e
+    pure ((← str a[0]!), (← Parse.lcTable a[1]!))) (← fld j "lc")
+  let model := files.map fun (id, text) => (id, Parse.modelParse id text ((lcs.lookup id).getD []))
+  if outcome ≠ "ok" then
+    -- the implementation panicked: does the model say so too?
+    let modelPanics := model.any fun (_, r) => match r with | .error _ => true | .ok _ => false
+    return { corr := [("outcome", modelPanics), ("parse", modelPanics)],
+             detail := [("impl_outcome", Json.str outcome), ("impl_msg", (impl.getObjVal? "msg").toOption.getD .null)] }
+  let stage1 ← list fileResult (← fld impl "stage1")
+  let out ← list fileResult (← fld impl "out")
+  let mut v : Verdict := {}
+  let mut same := true
+  for (id, r) in model do
+    match r, stage1.find? (fun fr => fr.id == id) with
+    | .ok m, some fr =>
+      if m != fr then
+        same := false
+        if v.detail.isEmpty then
+          v := v.addDetail "parse_diff" (Json.mkObj [("id", id), ("ast_equal", decide (m.ast = fr.ast)),
+            ("diag", firstDiff encDiag m.diags fr.diags),
+            ("model_has_tree", m.ast.isSome), ("impl_has_tree", fr.ast.isSome)])
+    | .error e, _ =>
+      same := false
+      v := v.addDetail "model_outcome" (Json.str e)
+    | _, none => same := false
+  v := v.addCorr "parse" same
+  let tagsOk := (impl.getObjVal? "tags_ok").toOption.bind (·.getBool?.toOption) |>.getD true
+  v := v.addCorr "outcome" true
+  let ctx : ParseCtx := { files, lcs, stage1, out, model, case := j }
+  v ← extra ctx v
+  let _ := tagsOk
+  let _ := prop
+  return v
+
 def handle (prop : String) (line : String) : Json :=
   match Json.parse line with
   | .error e => Json.mkObj [("error", s!"json: {e}")]
@@ -453,6 +502,7 @@ def handle (prop : String) (line : String) : Json :=
       | "perturb" => opPerturb j
       | "expected" => opExpected j
       | "serde" => opSerde j
+      | "parse" => opParse prop j (fun _ v => pure v)
       | _ => throw s!"unknown op {op}" : R Verdict) with
     | .ok v => v.toJson case
     | .error e => Json.mkObj [("case", case), ("error", e)]
